@@ -13,10 +13,10 @@ let nlog = ref 0
 let push t = log := t :: !log; incr nlog
 
 let trace_str () =
-  let l = List.rev !log in
-  if !nlog <= 48 then String.concat "," (List.map string_of_int l)
+  let l = Stdlib.List.rev !log in
+  if !nlog <= 48 then Stdlib.String.concat "," (Stdlib.List.map string_of_int l)
   else begin
-    let d = List.fold_left (fun d t -> (d * 1000003 + t) mod 1000000007) 0 l in
+    let d = Stdlib.List.fold_left (fun d t -> (d * 1000003 + t) mod 1000000007) 0 l in
     Printf.sprintf "%d:%d" !nlog d
   end
 
